@@ -1,7 +1,7 @@
 \* every import header (at most one unqualified item) x the productions whose meaning depends on the imports:
 \* references to imported names, qualified names / constructors / labels through every accessor, type annotations
 CONSTANTS Budget = 1 MaxItems = 1 Sim = FALSE Headers = "bfs"
-  Masked = {"pas_var", "item_b", "params1", "params2", "stmt_seq", "pipe",
+  Masked = {"item_b", "params1", "params2", "stmt_seq", "pipe",
             "block", "case", "lambda", "binop", "list", "tuple", "own_ctor_labelled", "own_ctor2_labelled", "own_field",
             "two_clauses", "clause_alt", "pas", "plit", "ptuple", "plist", "pconcat", "p_own_ctor", "p_own_ctor2", "p_own_ctor_pos"}
 SPECIFICATION Spec
